@@ -167,6 +167,9 @@ func (b *Reader) Peek(n int) ([]byte, error) {
 func (b *Reader) Read(p []byte) (n int, err error) {
 	n = len(p)
 	if n == 0 {
+		if b.Buffered() > 0 {
+			return 0, nil
+		}
 		return 0, b.readErr()
 	}
 	if b.w == b.r {
